@@ -38,7 +38,7 @@ SW = "rg::search::SearchWorker"
 
 def run(ctx):
     facts = ctx.facts
-    with ctx.rule("C14.LINES", "every delivered line passes detect_binary under self.binary (shared with C03.DELIVER)", floor=4,
+    with ctx.rule("C14.LINES", "every delivered line passes detect_binary under self.binary (shared with C03.DELIVER)", floor=2,
                   kind="PASS") as r:
         for f, dc in c03.siblings(facts):
             eb = ExprBuilder(f)
@@ -389,7 +389,7 @@ class _NoInline:
         self.env = env
         self.names = names
 
-    def init_of(self, local):
+    def init_of(self, local, any_type=False):
         if local.get("name") in self.names:
             return None
-        return self.env.init_of(local)
+        return self.env.init_of(local, any_type)
